@@ -195,7 +195,7 @@ impl World {
         node.drain_side_channels();
         node.add_connected_peer(HONEST, &all[1].pk, "http://honest.example:1").await;
         let spent = c01::spent_on_chain(&mut b, &start);
-        let env = c01::Env { b, tip: start, label: "c11", spent };
+        let env = c01::Env { b, tip: start, label: "c11", spent, nft_uuid: None };
         let mut w = World {
             node,
             env,
@@ -557,15 +557,19 @@ impl World {
             }
             14 => {
                 // golden ticket transactions: wrong payload length, unknown target, valid shape
-                let mut tx = Transaction::default();
-                tx.transaction_type = TransactionType::GoldenTicket;
-                let variant = rng.below(3);
-                tx.data = match variant {
-                    0 => rbytes(rng, &[0usize, 1, 96, 98, 500]),
-                    1 => rng.bytes(97),
+                // built like Wallet::create_golden_ticket_transaction (zero-value slips of the
+                // signer), so that it passes the transaction gates and reaches the pool's own guard
+                let honest_gt = mine_gt(rng, tip_hash, 0, &attacker.pk);
+                let mut tx = gt_tx(&honest_gt, &attacker);
+                let variant = rng.below(4);
+                match variant {
+                    0 => tx.data = rbytes(rng, &[0usize, 1, 96, 98, 500]),
+                    1 => tx.data = rng.bytes(97),
+                    2 => {}
                     _ => {
-                        let gt = mine_gt(rng, tip_hash, 0, &attacker.pk);
-                        gt.serialize_for_net()
+                        // a well-formed ticket followed by trailing bytes
+                        let extra = rbytes(rng, &[1usize, 3, 97]);
+                        tx.data.extend_from_slice(&extra);
                     }
                 };
                 tx.timestamp = T0 + 10;
